@@ -310,7 +310,7 @@ func c18Literal(r *rng.R) string {
 	return gen.Word(r, 1, 8)
 }
 
-var c18Values = []string{"plain", "a<b&c>\"d'e", "<w:t>x</w:t>", "&amp;", "multi word value", "值 中文", "", "{{v1}}", "x}}y{{", "ctl\x01char", "bell\x07 and \x1f", "bad\xffutf8", "nul\x00byte"}
+var c18Values = []string{"plain", "a<b&c>\"d'e", "<w:t>x</w:t>", "&amp;", "multi word value", "值 中文", "", "{{v1}}", "x}}y{{", "{{#if zz}}", "{{/if}}", "{{else}}", "ctl\x01char", "bell\x07 and \x1f", "bad\xffutf8", "nul\x00byte"}
 
 // xmlCarried is what an XML part can carry of a value: characters outside the XML Char production and invalid
 // UTF-8 are replaced by U+FFFD by every correct writer.
